@@ -8,8 +8,14 @@ Umbrella of the C03 property theorems:
                            trees of compose calls of unbounded size over all kinds of operands
 * `Props/C03Slices.lean`   `WithDims` in every spelling numpy accepts (negative indices, slices, a single integer)
 * `Props/C03Apply.lean`    `TransformChain._apply` as coded (nested `reduce`) = application of the flattened leaves
+* `Props/C03Ctor.lean`     the constructors (which arguments they refuse, what they guarantee and what they do not),
+                           `init_identity` is neutral, the constructor calls inside the ladder / `as_non_alignment`
+* `Props/C03Dtype.lean`    integer-typed and single-precision `h_matrix` operands: the law under numpy's promotion,
+                           the refutation of casting back to the receiver's dtype
 -/
 import MenpoModel.Props.C03Base
 import MenpoModel.Props.C03Algebra
 import MenpoModel.Props.C03Slices
 import MenpoModel.Props.C03Apply
+import MenpoModel.Props.C03Ctor
+import MenpoModel.Props.C03Dtype
